@@ -211,7 +211,8 @@ pub fn gen_avp_of(rng: &mut Rng, sw: &Swarm, attr: u16) -> SpecAvp {
         Fmt::MsgType => Val::Code(*rng.pick(&MESSAGE_TYPES)),
         Fmt::ProxyType => Val::Code(rng.range(0, MAX_PROXY_AUTHEN_TYPE as u64) as u16),
         Fmt::Result => {
-            let code = num(rng, 16, v) as u16;
+            // the assigned result codes (0-11) half of the time
+            let code = if rng.bool() { rng.range(0, 12) as u16 } else { num(rng, 16, v) as u16 };
             let error = if rng.chance(2, 3) {
                 let et = rng.range(0, MAX_ERROR_TYPE as u64) as u16;
                 let msg = if rng.bool() {
@@ -241,7 +242,7 @@ pub fn gen_avp_of(rng: &mut Rng, sw: &Swarm, attr: u16) -> SpecAvp {
         Fmt::U32 => Val::U32(num(rng, 32, v) as u32),
         Fmt::Bytes => {
             let n = var_len(rng, sw.size, MAX_PAYLOAD);
-            Val::Bytes(rng.bytes(n))
+            Val::Bytes(opaque_bytes(rng, n))
         }
         Fmt::Str => {
             let n = var_len(rng, sw.size, MAX_PAYLOAD);
@@ -293,7 +294,14 @@ pub fn gen_hidden(rng: &mut Rng, sw: &Swarm) -> SpecAvp {
     } else {
         rng.extreme(16) as u16
     };
+    // a third of the time the value has exactly the plain payload size of the
+    // announced type (an H bit on an unencrypted value, as a confused peer or
+    // a flipped bit produces), or that size +- 2
+    let natural = fmt_of(attr).map(min_payload);
     let n = match sw.size {
+        _ if natural.is_some() && rng.chance(1, 3) => {
+            (natural.unwrap() as i64 + *rng.pick(&[0i64, 0, 0, 2, -2])).max(0) as usize
+        }
         SizeRegime::Boundary => *rng.pick(&[0usize, 1, 16, 32, 1008, 1016, 1017]),
         SizeRegime::Tiny => *rng.pick(&[0usize, 1, 16]),
         SizeRegime::Typical => *rng.pick(&[0usize, 5, 16, 32, 48, 64, 33]),
@@ -322,6 +330,12 @@ pub fn encoded_len(a: &SpecAvp) -> usize {
 /// A control message in the encodable domain (first AVP, if any, is a
 /// Message Type; total at most `limit` octets).
 pub fn gen_control(rng: &mut Rng, sw: &Swarm, limit: usize) -> SpecMessage {
+    if limit >= 300 && rng.chance(1, 10) {
+        let m = gen_realistic(rng);
+        if spec_encode(&m).len() <= limit {
+            return m;
+        }
+    }
     let many = sw.max_avps > 100;
     let n = if sw.max_avps == 0 {
         0
@@ -800,5 +814,193 @@ pub fn secret_len(rng: &mut Rng) -> usize {
         5 => *rng.pick(&[119usize, 120, 127, 128, 239, 240, 241, 245, 250, 251, 255, 256, 257]),
         6 => rng.urange(0, 300),
         _ => *rng.pick(&[300usize, 511, 512, 1000, 4096]),
+    }
+}
+
+/// Opaque octets as a caller might plausibly supply them: mostly random, but
+/// sometimes shaped like a packet of some inner protocol whose own header
+/// describes its length (PPP LCP/PAP/CHAP: code, identifier, 16-bit length;
+/// TLV lists: type, 8-bit length), or all zero / all 0xFF, or text.
+pub fn opaque_bytes(rng: &mut Rng, n: usize) -> Vec<u8> {
+    let mut v = rng.bytes(n);
+    match rng.below(12) {
+        0 if n >= 4 => {
+            // inner packet: code, identifier, length = own length (+-0/2/4)
+            v[0] = *rng.pick(&[1u8, 2, 3, 4, 0, 9]);
+            let l = (n as i64 + *rng.pick(&[0i64, 0, 0, -4, 4, -2])) as u16;
+            v[2..4].copy_from_slice(&l.to_be_bytes());
+        }
+        1 if n >= 2 => {
+            // option list: type, length covering the whole value or one option
+            v[0] = *rng.pick(&[1u8, 2, 3, 5, 7, 8]);
+            v[1] = if rng.bool() { n as u8 } else { *rng.pick(&[2u8, 4, 6]) };
+        }
+        2 => {
+            let x = *rng.pick(&[0u8, 0xFF]);
+            v.iter_mut().for_each(|b| *b = x);
+        }
+        3 => {
+            for b in v.iter_mut() {
+                *b = b'a' + (*b % 26);
+            }
+        }
+        4 if n >= 2 => {
+            // 16-bit big-endian length prefix of itself
+            let l = (n as i64 + *rng.pick(&[0i64, -2, 6])) as u16;
+            v[0..2].copy_from_slice(&l.to_be_bytes());
+        }
+        _ => {}
+    }
+    v
+}
+
+/// Control messages shaped like real L2TP traffic (RFC 2661 section 6): the
+/// message kinds with the AVP sets, id conventions (tunnel 0 on SCCRQ,
+/// session 0 on tunnel-level messages) and value ranges an implementation
+/// actually sends. Defects tied to protocol meaning rather than to layout
+/// live here.
+pub fn gen_realistic(rng: &mut Rng) -> SpecMessage {
+    gen_realistic_of(rng, None)
+}
+
+pub fn gen_realistic_of(rng: &mut Rng, kind: Option<u16>) -> SpecMessage {
+    let sw = Swarm {
+        kinds: ALL_ATTRS.to_vec(),
+        size: SizeRegime::Typical,
+        strings: StrRegime::Ascii,
+        values: ValRegime::Uniform,
+        hidden_16: 0,
+        max_avps: 12,
+    };
+    let mt = kind.unwrap_or_else(|| *rng.pick(&MESSAGE_TYPES));
+    let mut avps = vec![SpecAvp { attr: 0, val: Val::Code(mt) }];
+    let add = |rng: &mut Rng, attr: u16, avps: &mut Vec<SpecAvp>| avps.push(gen_avp_of(rng, &sw, attr));
+    let (tunnel_zero, session_zero) = match mt {
+        1 => {
+            // SCCRQ
+            avps.push(SpecAvp { attr: 2, val: Val::Pair(1, 0) });
+            for a in [7u16, 3, 9] {
+                add(rng, a, &mut avps);
+            }
+            for a in [4u16, 10, 11, 5, 6, 8] {
+                if rng.bool() {
+                    add(rng, a, &mut avps);
+                }
+            }
+            (true, true)
+        }
+        2 => {
+            avps.push(SpecAvp { attr: 2, val: Val::Pair(1, 0) });
+            for a in [3u16, 7, 9] {
+                add(rng, a, &mut avps);
+            }
+            for a in [4u16, 6, 8, 10, 11, 13] {
+                if rng.bool() {
+                    add(rng, a, &mut avps);
+                }
+            }
+            (false, true)
+        }
+        3 => {
+            if rng.bool() {
+                add(rng, 13, &mut avps);
+            }
+            (false, true)
+        }
+        4 => {
+            add(rng, 9, &mut avps);
+            add(rng, 1, &mut avps);
+            (rng.bool(), true)
+        }
+        6 => (false, true),
+        7 => {
+            for a in [14u16, 15, 16, 17, 18, 19, 21] {
+                add(rng, a, &mut avps);
+            }
+            if rng.bool() {
+                add(rng, 23, &mut avps);
+            }
+            (false, true)
+        }
+        8 | 11 => {
+            add(rng, 14, &mut avps);
+            if rng.bool() {
+                add(rng, 25, &mut avps);
+            }
+            (false, false)
+        }
+        9 | 12 => {
+            for a in [24u16, 19] {
+                add(rng, a, &mut avps);
+            }
+            // symmetric connections are the common case
+            if rng.bool() {
+                let tx = avps.iter().find(|a| a.attr == 24).map(|a| a.val.clone());
+                if let Some(Val::U32(v)) = tx {
+                    avps.push(SpecAvp { attr: 38, val: Val::U32(if rng.chance(3, 4) { v } else { rng.u32() }) });
+                }
+            }
+            for a in [26u16, 27, 28, 29, 30, 31, 32, 33, 37, 39] {
+                if rng.chance(1, 3) {
+                    add(rng, a, &mut avps);
+                }
+            }
+            (false, false)
+        }
+        10 => {
+            for a in [14u16, 15] {
+                add(rng, a, &mut avps);
+            }
+            for a in [18u16, 25, 21, 22, 23] {
+                if rng.bool() {
+                    add(rng, a, &mut avps);
+                }
+            }
+            (false, true)
+        }
+        14 => {
+            add(rng, 1, &mut avps);
+            add(rng, 14, &mut avps);
+            if rng.bool() {
+                add(rng, 12, &mut avps);
+            }
+            (false, false)
+        }
+        15 => {
+            add(rng, 34, &mut avps);
+            (false, false)
+        }
+        _ => {
+            add(rng, 35, &mut avps);
+            (false, false)
+        }
+    };
+    // LCP CONFREQ AVPs carry real-looking option lists or whole packets
+    for a in avps.iter_mut() {
+        if matches!(a.attr, 26 | 27 | 28) {
+            let mut opts: Vec<u8> = vec![1, 4, 0, 0, 5, 6, rng.u8(), rng.u8(), rng.u8(), rng.u8(), 2, 6, 0, 0x0a, 0, 0];
+            let mru_is_len = rng.bool();
+            let total = opts.len() as u16;
+            let mru = if mru_is_len { total } else { 1500 };
+            opts[2..4].copy_from_slice(&mru.to_be_bytes());
+            if rng.chance(1, 3) {
+                // whole packet: code 1, id, length
+                let mut p = vec![1u8, rng.u8(), 0, 0];
+                p.extend_from_slice(&opts);
+                let l = p.len() as u16;
+                p[2..4].copy_from_slice(&l.to_be_bytes());
+                opts = p;
+            }
+            a.val = Val::Bytes(opts);
+        }
+    }
+    let ns = rng.range(0, 5) as u16;
+    SpecMessage::Control {
+        length: 0,
+        tunnel_id: if tunnel_zero { 0 } else { rng.range(1, 65535) as u16 },
+        session_id: if session_zero { 0 } else { rng.range(1, 65535) as u16 },
+        ns,
+        nr: if rng.bool() { 0 } else { ns.wrapping_add(1) },
+        avps,
     }
 }
